@@ -78,3 +78,59 @@ theorem checkInfeasible_sound (n : Nat) (rows : List (Row α)) (y : List α)
   · have := h2 hu; linarith
 
 end AV
+
+namespace AV
+variable {α : Type} [Field α] [LinearOrder α] [IsStrictOrderedRing α]
+
+theorem memb_iff (p : Aff α) (x : List α) : Poly.memb p x = true ↔ Poly.Mem p x := by
+  unfold Poly.memb Poly.Mem
+  simp [List.all_eq_true]
+
+theorem sat_polyRows' (p : Aff α) (x : List α) : Sat (polyRows p) x ↔ Poly.Mem p x := by
+  unfold Sat polyRows Poly.Mem
+  constructor
+  · intro h rb hrb
+    have := h ⟨rb.1, rb.2, false⟩ (List.mem_map.mpr ⟨rb, hrb, rfl⟩)
+    simpa [Row.sat] using this
+  · intro h r hr
+    obtain ⟨rb, hrb, rfl⟩ := List.mem_map.mp hr
+    simpa [Row.sat] using h rb hrb
+
+/-- an accepted primal/dual pair proves optimality: `x` is in the set, has value `v`, and no point of the set has a
+    smaller value -/
+theorem checkOptimal_sound (n : Nat) (p : Aff α) (c x : List α) (v : α) (y : List α)
+    (h : checkOptimal n p c x v y = true) :
+    Poly.Mem p x ∧ dot c x = v ∧ ∀ z, Poly.Mem p z → v ≤ dot c z := by
+  simp only [checkOptimal, Bool.and_eq_true, beq_iff_eq, List.all_eq_true, decide_eq_true_eq] at h
+  obtain ⟨⟨⟨⟨⟨⟨⟨hmem, hval⟩, _⟩, _⟩, hy⟩, hn⟩, hvec⟩, hrhs⟩ := h
+  refine ⟨(memb_iff p x).mp hmem, hval, fun z hz => ?_⟩
+  have := (comb_le n y (polyRows p) z hy hn ((sat_polyRows' p z).mpr hz)).1
+  rw [hvec, hrhs, dot_vneg_left] at this
+  linarith
+
+/-- an accepted point/ray pair proves unboundedness: below every bound there is a point of the set -/
+theorem checkUnbounded_sound (n : Nat) (p : Aff α) (c x d : List α)
+    (h : checkUnbounded n p c x d = true) (M : α) : ∃ z, Poly.Mem p z ∧ dot c z < M := by
+  simp only [checkUnbounded, Bool.and_eq_true, beq_iff_eq, List.all_eq_true, decide_eq_true_eq] at h
+  obtain ⟨⟨⟨⟨⟨hmem, hxl⟩, hdl⟩, hcl⟩, hrows⟩, hneg⟩ := h
+  have hx := (memb_iff p x).mp hmem
+  -- step length: far enough along the ray
+  let t : α := max 0 ((dot c x - M) / (-(dot c d)) + 1)
+  have ht0 : 0 ≤ t := le_max_left _ _
+  have hpos : 0 < -(dot c d) := by linarith
+  have ht1 : (dot c x - M) / (-(dot c d)) + 1 ≤ t := le_max_right _ _
+  refine ⟨vadd x (smul t d), ?_, ?_⟩
+  · intro rb hrb
+    obtain ⟨hl, hle⟩ := hrows rb hrb
+    rw [dot_vadd_right _ _ _ (by simp [smul_length, hxl, hdl]), dot_comm rb.1 (smul t d), dot_smul_left,
+      dot_comm d rb.1]
+    have := hx rb hrb
+    have : t * dot rb.1 d ≤ 0 := mul_nonpos_of_nonneg_of_nonpos ht0 hle
+    linarith
+  · rw [dot_vadd_right _ _ _ (by simp [smul_length, hxl, hdl]), dot_comm c (smul t d), dot_smul_left, dot_comm d c]
+    have h1 : (dot c x - M) / (-(dot c d)) < t := by linarith
+    have h2 : dot c x - M < t * (-(dot c d)) := by
+      rwa [div_lt_iff₀ hpos] at h1
+    linarith
+
+end AV
